@@ -3584,6 +3584,21 @@ func (db *DB) EnforceRetention(ctx context.Context, minTime time.Time) error {
 		return nil // no LTX files, exit
 	}
 
+	// Determine the latest LTX file. File names sort by minimum TXID so the
+	// last entry is not the latest while a snapshot sits next to the files it
+	// is about to replace.
+	latest := -1
+	var latestMinTXID, latestMaxTXID ltx.TXID
+	for i, ent := range ents {
+		minTXID, maxTXID, err := ltx.ParseFilename(ent.Name())
+		if err != nil {
+			continue // unknown file, skip
+		}
+		if latest == -1 || maxTXID > latestMaxTXID || (maxTXID == latestMaxTXID && minTXID < latestMinTXID) {
+			latest, latestMinTXID, latestMaxTXID = i, minTXID, maxTXID
+		}
+	}
+
 	// Delete all files that are before the minimum time.
 	var totalN int
 	var totalSize int64
@@ -3611,7 +3626,7 @@ func (db *DB) EnforceRetention(ctx context.Context, minTime time.Time) error {
 		}
 
 		// Ensure the latest LTX file is never deleted.
-		if i == len(ents)-1 {
+		if i == latest {
 			shouldRemove = false
 		}
 
